@@ -32,7 +32,10 @@ PROFILE = {"irr_methods": [0, 1, 2, 3, 3, 3, 4, 5], "calendar_crop_p": 0.5, "cus
 
 
 def gen_case(rng, tier, idx):
-    spec = gen_spec(rng, PROFILE)
+    prof = dict(PROFILE)
+    if idx % 6 != 5:
+        prof["weather_extra_after"] = 740   # room for uses with a shifted window
+    spec = gen_spec(rng, prof)
     enum = (idx % 6 == 5)
     if enum:
         # short window so that every fault point can be enumerated
@@ -53,10 +56,14 @@ def gen_case(rng, tier, idx):
         r = rng.random()
         model = rng.choice(["new", "same"])
         t = rng.choice([0, 0, 1, rng.randrange(max(1, n)), max(0, n - 2)])
+        other = None
+        if rng.random() < 0.3:
+            # a use of the same objects for ANOTHER simulation window (shifted by whole years inside the weather table)
+            other = rng.choice([-2, -1, 1, 2])
         if r < 0.45:
-            hist.append({"op": "run", "model": model, "how": rng.choice(["till", "till", "steps"])})
+            hist.append({"op": "run", "model": model, "how": rng.choice(["till", "till", "steps"]), "shift_years": other})
         elif r < 0.75:
-            hist.append({"op": "abandon", "model": model, "steps": t + 1})
+            hist.append({"op": "abandon", "model": "new" if other else model, "steps": t + 1, "shift_years": other})
         else:
             hist.append({"op": "crash", "model": model, "t": t, "pidx": rng.randrange(18)})
     hist.append({"op": "run", "model": rng.choice(["new", "same"]), "how": "till"})
@@ -104,7 +111,23 @@ def run_case(case):
     csig = config_sig(spec)
     state = {"node": None, "first": None, "uses": 0, "trace": []}
 
-    def get_node(which):
+    def shifted_window(years):
+        """same month/day, other years; None when the weather table does not cover it"""
+        import datetime as dt
+        from ..spec import weather_end
+        s0, e0 = parse_date(spec["start"]), parse_date(spec["end"])
+        try:
+            s1, e1 = s0.replace(year=s0.year + years), e0.replace(year=e0.year + years)
+        except ValueError:
+            return None
+        if s1 < parse_date(spec["weather"]["start"]) or e1 > weather_end(spec["weather"]):
+            return None
+        return fmt_date(s1), fmt_date(e1)
+
+    def get_node(which, window=None):
+        if window is not None:
+            fault("new_model_same_objects_other_window")
+            return Node(spec, objs=objs, start=window[0], end=window[1])
         if which == "same" and state["node"] is not None:
             fault("reuse_same_model")
             return state["node"]
@@ -112,6 +135,33 @@ def run_case(case):
         n = Node(spec, objs=objs)
         state["node"] = n
         return n
+
+    def other_window_use(op):
+        """a use of the same objects for another window: complete or abandoned; never compared, only must not raise anything unclassified"""
+        win = shifted_window(op["shift_years"])
+        if win is None:
+            return False
+        try:
+            node = get_node("new", window=win)
+            if op["op"] == "run":
+                node.run_to_end()
+            else:
+                node.initialize()
+                k = 0
+                while k < op["steps"] and not node.finished:
+                    node.step(1)
+                    k += 1
+            res["days"] += node.steps_done
+        except CaseTimeout:
+            raise
+        except Exception as e:  # noqa: BLE001
+            kind, sig = classify_exception(e)
+            if kind == "harness":
+                raise
+            # the other window may legitimately be rejected (e.g. too few degree days) or hit a C16 finding: it still was a use
+        state["uses"] += 1
+        state["trace"].append(f"{op['op']}@window{op['shift_years']:+d}y")
+        return True
 
     def completed(label, how, which):
         try:
@@ -216,6 +266,9 @@ def run_case(case):
                     break
     else:
         for op in case["history"]:
+            if op.get("shift_years") and op["op"] in ("run", "abandon"):
+                if other_window_use(op):
+                    continue
             if op["op"] == "run":
                 completed("run:" + op.get("how", "till") + ":" + op["model"], op.get("how", "till"), op["model"])
             elif op["op"] == "abandon":
